@@ -1268,6 +1268,21 @@ func genSimDirected(g *h.Gen, v string) {
 			g.Emit("sim cfg %s %s %s; %sS 0 0 %d - %s; W; OU %d; OR %d 23; N; Q %d 1; G", v, cs, tbl, pre, m, def, m, m, m)
 		}
 	}
+	// styles that differ from StyleDefault ONLY in the hyperlink or the underline colour/style: they are the cell's own style (the
+	// screen style stands in for StyleDefault alone), with and without a screen style set
+	{
+		cd := newCodec("UTF-8")
+		tbl := fmt.Sprintf("97=%s,32=%s", cd.encStr('a'), cd.encStr(' '))
+		only := []string{
+			StyleF{Url: "https://example.com/x", UrlId: "id=7"}.String(), StyleF{Url: "https://example.com/y"}.String(),
+			StyleF{UlStyle: 1, UlColor: uint64(tcell.ColorGreen)}.String(), StyleF{UlColor: uint64(tcell.ColorRed)}.String(), StyleF{UlStyle: 3}.String(),
+		}
+		scrSt := StyleF{Fg: uint64(tcell.ColorYellow), Bg: uint64(tcell.ColorNavy), Attrs: 1}.String()
+		for k, st := range only {
+			g.Emit("sim cfg %s UTF-8 %s; S %d 0 97 - %s; S 5 1 97 - %s; W; G", v, tbl, k, st, def)
+			g.Emit("sim cfg %s UTF-8 %s; Y %s; S %d 0 97 - %s; S 5 1 97 - %s; W; G; N; G", v, tbl, scrSt, k, st, def)
+		}
+	}
 	for i, n := 0, g.N(120, 3000); i < n; i++ {
 		cs := simCharsets[i%len(simCharsets)]
 		cd := newCodec(cs)
